@@ -2505,3 +2505,296 @@ theorem viewInv_run {defs : List Def} {ii : Indexed} {c : MockConfig} {m : ExecM
     exact ih (fun o' ho' => hos o' (List.mem_cons_of_mem _ ho')) (viewInv_step H hv o (hos o (by simp))).1
 
 end BarterModel.MockInstruments
+
+/-! ## Oracle review C04-M2: what the spec driver now states where it was silent
+(rejection reasons, the initial account snapshot) -/
+
+namespace BarterModel.MockExchange
+
+/-- Which rejection an open request gets when the history-only specification prescribes no fill, for
+an instrument the exchange lists: a non-market order is `kindUnsupported`; a market order is
+`balanceInsufficient` on the asset it would have spent (never a panic, never `instrumentInvalid`). -/
+theorem open_rejected_reason {c : Cfg} {s : State} {acc : List Spec.Ev} (h : Refines c s acc)
+    (hc : c.wf = true) (t : Int) (r : Req) (u : Instr) (hu : c.instruments[r.instr]? = some u)
+    (hnone : Spec.respond c acc ⟨exchangeTime c t, r⟩ = none) :
+    (r.kind ≠ .market → (step s t (.openOrder r)).2.1 = .order (.rejected .kindUnsupported)) ∧
+    (r.kind = .market → ∃ av rq,
+      (step s t (.openOrder r)).2.1 = .order (.rejected (.balanceInsufficient (spentAsset u r.side) av rq))) := by
+  rw [step_open_resp]
+  have hins : (updateTime s t).instruments[r.instr]? = some u := by
+    have : (updateTime s t).instruments = s.instruments := by simp [updateTime]
+    rw [this, h.instruments]; exact hu
+  rcases refines_open h hc t r with ⟨hf, a, v, hsp, hv, _, _⟩ | ⟨_, err, hres⟩
+  · exfalso
+    simp [Spec.respond, hf, hsp, hv] at hnone
+  · rcases openOrder_cases (updateTime s t) r with ⟨hk, e⟩ | ⟨hk, hi, e⟩ | ⟨u', hk, hi, hb, e⟩ |
+      ⟨u', cur, hk, hi, hb, ht, e⟩ | ⟨u', cur, hk, hi, hb, ht, hn, e⟩ | ⟨u', cur, hk, hi, hb, ht, hn, e⟩
+    · exact ⟨fun _ => by rw [e], fun hm => absurd hm hk⟩
+    · rw [hins] at hi; cases hi
+    · rw [e] at hres; cases hres
+    · rw [e] at hres; cases hres
+    · rw [hins] at hi; cases hi
+      exact ⟨fun hm => absurd hk hm, fun _ => ⟨_, _, by rw [e]⟩⟩
+    · rw [e] at hres; simp at hres
+
+end BarterModel.MockExchange
+
+namespace BarterModel.MockInstruments
+open BarterModel.Index
+open BarterModel.MockExchange (Cfg Instr Req Trade)
+open BarterModel.MockExchange.Spec
+
+/-- (order snapshot of a request that is NOT filled) Same setting as `mockOpen_refines_view`: when
+the index-level specification prescribes no fill, the order snapshot that comes back carries the
+request's own (exchange index, instrument index) and the reason `specOutcome` names — `rejected`
+for a non-market order, otherwise `insufficient` with the asset INDEX the order would have spent. -/
+theorem mockOpen_reject_outcome {defs : List Def} {ii : Indexed} {c : MockConfig} {m : ExecMap.EMap}
+    {t : Table} (H : ViewHyp defs ii c m t) {mt : MockTask} {ops : List (Int × MockExchange.Request)}
+    (hh : MockHist mt c ops) (htab : mt.table = t) (hd : mt.dead = false)
+    {i : Nat} {x : Keyed Nat IInstrument} (hx : ii.instruments[i]? = some x)
+    (hex : x.value.exchange.value = c.exchange) (o : Open) (ho : o.instrument = i) :
+    let accN := accepted (toCfg c t) (MockExchange.opens (toCfg c t) ops)
+    let accI := accN.map (renEv (tauOf m t))
+    specObserve ii c accI o = none →
+      (mockOpen m mt x.value.nameExchange o).2.order = some (m.exchange.key, i, specOutcome ii c accI o) := by
+  intro accN accI hnone
+  have hR := renames_of_view H
+  have hwf : (toCfg c t).wf = true := covers_wf H.build H.wfa c H.table H.covers
+  obtain ⟨_, h2, e, he, _, hb, hq⟩ := own_view H.build c.exchange H.wfa H.un H.ua H.map H.table hx hex
+  obtain ⟨n, hn⟩ : ∃ n, n = x.value.nameExchange := ⟨_, rfl⟩
+  rw [← hn] at he h2 ⊢
+  let req := mockReq t n o
+  let evN : Ev := ⟨MockExchange.exchangeTime (toCfg c t) 0, req⟩
+  have hpos : t[tablePos t n]? = some (n, e) := lookup_getElem_idxOf t n e he
+  have htau : tauOf m t (tablePos t n) = i := by
+    simp only [tauOf, hpos, h2]
+  have hren : renEv (tauOf m t) evN = ⟨MockExchange.exchangeTime (specCfg ii c) 0, specReq o⟩ := by
+    simp only [renEv, evN, req, mockReq, specReq, htau, ho]; rfl
+  have hknownN : ∀ e' ∈ accN, Known (toCfg c t) e' := accepted_known _ _
+  have hu : (toCfg c t).instruments[req.instr]? =
+      some ⟨(c.balances.map (·.1)).idxOf e.base, (c.balances.map (·.1)).idxOf e.quote⟩ := by
+    simp only [req, mockReq, toCfg, List.getElem?_map, hpos, Option.map_some]
+  have hknown : Known (toCfg c t) evN := ⟨_, hu⟩
+  have hspec : specObserve ii c accI o =
+      (respond (toCfg c t) accN evN).map fun r => (sigmaOf m (c.balances.map (·.1)) r.1, r.2.1,
+        { r.2.2 with instr := tauOf m t r.2.2.instr }) := by
+    unfold specObserve
+    rw [← hren]
+    exact respond_ren hR accN hknownN evN hknown
+  have hrN : respond (toCfg c t) accN evN = none := by
+    rw [hspec] at hnone
+    cases hr : respond (toCfg c t) accN evN with
+    | none => rfl
+    | some r => rw [hr] at hnone; cases hnone
+  have hkey : m.findInstrumentIndex n = .ok i := h2
+  have hst : mt.st = MockExchange.run (MockExchange.init (toCfg c t)) ops := by rw [hh.st, htab]
+  have hnames : mt.names = c.balances.map (·.1) := hh.names
+  obtain ⟨hnm, hm⟩ := MockExchange.open_rejected_reason (MockExchange.refines_run hwf ops) hwf 0 req _ hu hrN
+  have hwfp := (toCfg_wf_iff c t).mp hwf (n, e) (List.mem_of_getElem? hpos)
+  -- the specification side
+  have hins : (specCfg ii c).instruments[(specReq o).instr]? = some ⟨x.value.base, x.value.quote⟩ := by
+    simp only [specCfg, specReq, ho, List.getElem?_map, hx, Option.map_some]
+  by_cases hk : o.kind = .market
+  · obtain ⟨av, rq, h21'⟩ := hm hk
+    have h21 : (MockExchange.step mt.st 0 (.openOrder (mockReq mt.table n o))).2.1 =
+        .order (.rejected (.balanceInsufficient
+          (match o.side with
+            | .buy => (c.balances.map (·.1)).idxOf e.quote
+            | .sell => (c.balances.map (·.1)).idxOf e.base) av rq)) := by
+      rw [hst, htab, h21']
+      simp only [req, mockReq, MockExchange.spentAsset]
+      cases o.side <;> rfl
+    have hname : mt.names[(match o.side with
+          | .buy => (c.balances.map (fun (p : Nat × Rat) => p.1)).idxOf e.quote
+          | .sell => (c.balances.map (fun (p : Nat × Rat) => p.1)).idxOf e.base)]? =
+        some (match o.side with | .buy => e.quote | .sell => e.base) := by
+      rw [hnames]
+      cases o.side
+      · exact getElem?_idxOf_of_lt _ _ (List.idxOf_lt_length_iff.mpr hwfp.2)
+      · exact getElem?_idxOf_of_lt _ _ (List.idxOf_lt_length_iff.mpr hwfp.1)
+    have hidx : m.findAssetIndex (match o.side with | .buy => e.quote | .sell => e.base) =
+        .ok (match o.side with | .buy => x.value.quote | .sell => x.value.base) := by
+      cases o.side
+      · exact hq
+      · exact hb
+    have hout : specOutcome ii c accI o =
+        .insufficient (match o.side with | .buy => x.value.quote | .sell => x.value.base) := by
+      unfold specOutcome
+      rw [hnone]
+      simp only [hk, ne_eq, not_true_eq_false, if_false, MockExchange.Spec.spends, hins]
+      cases hs : o.side <;> simp [specReq, hs]
+    unfold mockOpen
+    simp only [hd, Bool.false_eq_true, if_false, h21, hkey, hname, hidx, hout]
+  · have h21 : (MockExchange.step mt.st 0 (.openOrder (mockReq mt.table n o))).2.1 =
+        .order (.rejected .kindUnsupported) := by
+      rw [hst, htab]; exact hnm hk
+    have hout : specOutcome ii c accI o = .rejected := by
+      unfold specOutcome
+      rw [hnone]
+      simp [hk]
+    unfold mockOpen
+    simp only [hd, Bool.false_eq_true, if_false, h21, hkey, hout, Option.map_some]
+
+
+theorem nodup_of_nodup_map {α β : Type} (f : α → β) (l : List α) (h : (l.map f).Nodup) : l.Nodup := by
+  induction l with
+  | nil => simp
+  | cons a t ih =>
+    simp only [List.map_cons, List.nodup_cons] at h ⊢
+    exact ⟨fun hm => h.1 (List.mem_map_of_mem hm), ih h.2⟩
+
+theorem mapO_cons_some {α β : Type} (f : α → Option β) (a : α) (t : List α) (r : List β)
+    (h : ExecMap.mapO f (a :: t) = some r) :
+    ∃ ya rt, f a = some ya ∧ ExecMap.mapO f t = some rt ∧ r = ya :: rt := by
+  simp only [ExecMap.mapO] at h
+  cases hfa : f a with
+  | none => simp [hfa] at h
+  | some ya =>
+    cases hrt : ExecMap.mapO f t with
+    | none => simp [hfa, hrt] at h
+    | some rt =>
+      simp only [hfa, hrt, Option.some.injEq] at h
+      exact ⟨ya, rt, rfl, rfl, h.symm⟩
+
+theorem mapO_mem {α β : Type} (f : α → Option β) (l : List α) (r : List β)
+    (h : ExecMap.mapO f l = some r) (y : β) : y ∈ r ↔ ∃ x ∈ l, f x = some y := by
+  induction l generalizing r with
+  | nil => simp [ExecMap.mapO] at h; subst h; simp
+  | cons a t ih =>
+    obtain ⟨ya, rt, hfa, hrt, rfl⟩ := mapO_cons_some f a t r h
+    simp only [List.mem_cons, ih rt hrt]
+    constructor
+    · rintro (rfl | ⟨x, hx, hfx⟩)
+      · exact ⟨a, .inl rfl, hfa⟩
+      · exact ⟨x, .inr hx, hfx⟩
+    · rintro ⟨x, rfl | hx, hfx⟩
+      · left; rw [hfa] at hfx; injection hfx with hfx; exact hfx.symm
+      · exact .inr ⟨x, hx, hfx⟩
+
+theorem mapO_total {α β : Type} (f : α → Option β) (l : List α) (h : ∀ x ∈ l, ∃ y, f x = some y) :
+    ∃ r, ExecMap.mapO f l = some r := by
+  induction l with
+  | nil => exact ⟨[], rfl⟩
+  | cons a t ih =>
+    obtain ⟨ya, hya⟩ := h a (by simp)
+    obtain ⟨r, hr⟩ := ih (fun x hx => h x (by simp [hx]))
+    exact ⟨ya :: r, by simp [ExecMap.mapO, hya, hr]⟩
+
+theorem mapO_nodup {α β : Type} (f : α → Option β) (l : List α) (r : List β)
+    (hr : ExecMap.mapO f l = some r) (hn : l.Nodup)
+    (hinj : ∀ x ∈ l, ∀ x' ∈ l, ∀ y, f x = some y → f x' = some y → x = x') : r.Nodup := by
+  induction l generalizing r with
+  | nil => simp [ExecMap.mapO] at hr; subst hr; simp
+  | cons a t ih =>
+    obtain ⟨ya, rt, hfa, hrt, rfl⟩ := mapO_cons_some f a t r hr
+    have hnt := List.nodup_cons.mp hn
+    refine List.nodup_cons.mpr ⟨?_, ih rt hrt hnt.2 (fun x hx x' hx' y h1 h2 =>
+      hinj x (by simp [hx]) x' (by simp [hx']) y h1 h2)⟩
+    intro hmem
+    obtain ⟨x, hx, hfx⟩ := (mapO_mem f t rt hrt ya).mp hmem
+    have := hinj a (by simp) x (by simp [hx]) ya hfa hfx
+    subst this
+    exact hnt.1 hx
+
+/-- Under `ViewHyp` the manager's map sends the exchange name of every asset of the mocked exchange
+to that asset's own index (= its position in the asset table). -/
+theorem view_asset_index {defs : List Def} {ii : Indexed} {c : MockConfig} {m : ExecMap.EMap}
+    {t : Table} (H : ViewHyp defs ii c m t) (k : Nat) (y : Keyed Nat ExchangeAsset)
+    (hk : ii.assets[k]? = some y) (hye : y.value.exchange = c.exchange) :
+    m.findAssetIndex y.value.asset.nameExchange = .ok k ∧ y.key = k := by
+  have hW := wf_toColl H.build c.exchange H.un H.ua
+  have hA := ExecMap.agreesRev_of_wf hW H.map
+  have hka : (toColl ii).assets[k]? = some ⟨y.key, y.value.exchange, y.value.asset.nameExchange⟩ := by
+    rw [toColl_asset, hk]; rfl
+  refine ⟨?_, ?_⟩
+  · rw [ExecMap.findAssetIndex_eq hA, (ExecMap.specAssetIndex_some hW _ k).mpr ⟨_, hka, hye, rfl⟩]
+  · obtain ⟨_, h2, _, _⟩ := build_some defs ii H.build
+    rw [h2, getElem?_enumerate] at hk
+    cases hs : (sortedAssets defs)[k]? with
+    | none => simp [hs] at hk
+    | some a => simp [hs] at hk; rw [← hk]
+
+/-- **The initial account snapshot, engine view** (spec key `snap<x>`, oracle review C04-M2 / T1).
+Under `ViewHyp`, the snapshot the manager of the mocked exchange hands the engine at start-up (the
+configured balances, each exchange NAME translated to an asset index through the manager's map) is,
+up to order, `specSnapshot`: for every asset INDEX of that exchange the amount configured for it —
+no asset of the exchange missing, none of another exchange, none twice. -/
+theorem initSnapshot_refines_view {defs : List Def} {ii : Indexed} {c : MockConfig} {m : ExecMap.EMap}
+    {t : Table} (H : ViewHyp defs ii c m t) (mocks : List MockFuture) (f : InitFuture) (chan : Nat)
+    (hf : f.client = .mock chan) (hm : f.map = m)
+    (hfind : mocks.find? (fun mf => mf.chan == chan) = some ⟨chan, c, t⟩) :
+    ∃ l, initSnapshot mocks f = some l ∧ l.Perm (specSnapshot ii c) := by
+  let g : Nat × Rat → Option (Nat × Rat) := fun b =>
+    match m.findAssetIndex b.1 with
+    | .ok a => some (a, b.2)
+    | .error _ => none
+  have hinit : initSnapshot mocks f = ExecMap.mapO g c.balances := by
+    unfold initSnapshot
+    simp only [hf, hfind, hm]
+    rfl
+  -- every configured name translates
+  have hname : ∀ b ∈ c.balances, ∃ k y, ii.assets[k]? = some y ∧ y.value.exchange = c.exchange ∧
+      y.value.asset.nameExchange = b.1 ∧ g b = some (k, b.2) := by
+    intro b hb
+    obtain ⟨y, hy, hye, hyn⟩ := H.nostray b.1 (List.mem_map_of_mem (f := (·.1)) hb)
+    obtain ⟨k, hk⟩ := List.mem_iff_getElem?.mp hy
+    have := (view_asset_index H k y hk hye).1
+    refine ⟨k, y, hk, hye, hyn, ?_⟩
+    simp only [g, ← hyn, this]
+  obtain ⟨l, hl⟩ := mapO_total g c.balances (fun b hb => by
+    obtain ⟨k, _, _, _, _, hg⟩ := hname b hb; exact ⟨_, hg⟩)
+  refine ⟨l, by rw [hinit, hl], ?_⟩
+  have hbn : c.balances.Nodup := by
+    exact nodup_of_nodup_map (·.1) _ H.nodup
+  have hln : l.Nodup := by
+    refine mapO_nodup g c.balances l hl hbn ?_
+    intro b hb b' hb' y h1 h2
+    obtain ⟨k, yk, hk, _, hyn, hg⟩ := hname b hb
+    obtain ⟨k', yk', hk', _, hyn', hg'⟩ := hname b' hb'
+    rw [hg] at h1; rw [hg'] at h2
+    injection h1 with h1; injection h2 with h2
+    have hkk : k = k' := by
+      have := congrArg Prod.fst (h1.trans h2.symm); exact this
+    subst hkk
+    rw [hk] at hk'; injection hk' with hk'; subst hk'
+    have h12 : b.2 = b'.2 := by
+      have := congrArg Prod.snd (h1.trans h2.symm); exact this
+    exact Prod.ext (hyn.symm.trans hyn') h12
+  have hsn : (specSnapshot ii c).Nodup := by
+    unfold specSnapshot
+    obtain ⟨_, h2, _, _⟩ := build_some defs ii H.build
+    have hkeys : (ii.assets.map (·.key)).Nodup := by
+      rw [h2]
+      have : (enumerate (sortedAssets defs)).map (·.key) = List.range (sortedAssets defs).length := by
+        simp [enumerate, List.mapIdx_eq_zipIdx_map, List.range_eq_range']
+        apply List.ext_getElem <;> simp
+      rw [this]; exact List.nodup_range
+    have hfilt : ((ii.assets.filter fun a => a.value.exchange == c.exchange).map (·.key)).Nodup :=
+      (List.Sublist.map _ List.filter_sublist).nodup hkeys
+    exact nodup_of_nodup_map (fun p => p.1) _ (by simpa [List.map_map, Function.comp_def] using hfilt)
+  rw [List.perm_ext_iff_of_nodup hln hsn]
+  intro p
+  rw [mapO_mem g c.balances l hl p]
+  unfold specSnapshot
+  simp only [List.mem_map, List.mem_filter, beq_iff_eq]
+  constructor
+  · rintro ⟨b, hb, hgb⟩
+    obtain ⟨k, y, hk, hye, hyn, hg⟩ := hname b hb
+    rw [hg] at hgb; injection hgb with hgb
+    refine ⟨y, ⟨List.mem_of_getElem? hk, hye⟩, ?_⟩
+    rw [← hgb, (view_asset_index H k y hk hye).2]
+    have hfind' := find?_of_nodup_fst c.balances H.nodup b hb
+    simp only [specInitial, hye, if_true, hyn, hfind']
+  · rintro ⟨y, ⟨hy, hye⟩, rfl⟩
+    obtain ⟨k, hk⟩ := List.mem_iff_getElem?.mp hy
+    have hcov := H.covers y hy hye
+    obtain ⟨b, hb, hb1⟩ := List.mem_map.mp hcov
+    obtain ⟨n, amt⟩ := b
+    simp only at hb1
+    subst hb1
+    refine ⟨(_, amt), hb, ?_⟩
+    have hv := view_asset_index H k y hk hye
+    have hfind' := find?_of_nodup_fst c.balances H.nodup _ hb
+    simp only [g, hv.1, hv.2, specInitial, hye, if_true, hfind']
+
+end BarterModel.MockInstruments
